@@ -37,6 +37,7 @@ class Context:
         self._bounded = {}
         self._replay_exe = None
         self._assumption_scan = []
+        self._playbacks = 0
 
     # ---- evidence helpers ------------------------------------------------------------------
     def explanation(self):
@@ -88,6 +89,9 @@ class Context:
         if self.enabled('S'):
             from . import static
             static.run_units(self)
+        if self.enabled('TV'):
+            from . import tv
+            tv.run_units(self)
         if not self.obligations and not self.infra_errors:
             self.infra_errors.append('vacuity: no obligation was generated for this property')
         self.scan_assumptions()
@@ -144,7 +148,9 @@ class Context:
                 raw = '\n'.join(f'Check {c["n"]}: {c["id"]}\n - Status: {c["status"]}\n - Description: {c["desc"]}\n - Location: {c["loc"]}' for c in fails)
                 ob = Obligation(name, 'K', 'failed', clause=clause, detail=detail, unit=h['name'], raw=raw, time_s=x['time_s'], n_checks=nchk, n_failed=len(fails),
                                 extra={'failed_checks': [{'id': c['id'], 'desc': c['desc'], 'loc': c['loc']} for c in fails]})
-                self.k_counterexample(h, ob)
+                if self._playbacks < 2:   # concrete playback re-runs CBMC: keep the violation path fast
+                    self._playbacks += 1
+                    self.k_counterexample(h, ob)
                 self.obligations.append(ob)
             else:
                 self.obligations.append(Obligation(name, 'K', 'undecided', clause=clause, detail=f'{x["status"]}: {x["detail"][-800:]}', unit=h['name'], raw=x.get('raw', '')[-4000:]))
@@ -166,7 +172,15 @@ class Context:
             return ''
         end = txt.find('\n}\n', m.end())
         body = txt[m.end():end]
-        msgs = re.findall(r'(?:src::check(?:_rt)?|vcheck!)\([^;]*?"((?:[^"\\]|\\.)*)"\s*\)\s*;', body, re.S)
+        pat = r'(?:src::check(?:_rt)?|vcheck!)\([^;]*?"((?:[^"\\]|\\.)*)"\s*\)\s*;'
+        msgs = re.findall(pat, body, re.S)
+        if not msgs:
+            # the body delegates to a helper of the same file (e.g. `uint_case::<3>(..)`): take the helper's clauses
+            for callee in re.findall(r'\b([a-z_][a-z0-9_]*)\s*(?:::<[^>]*>)?\s*\(', body):
+                mm = re.search(r'\bfn ' + re.escape(callee) + r'\b[^{]*\{', txt)
+                if mm:
+                    e2 = txt.find('\n}\n', mm.end())
+                    msgs += re.findall(pat, txt[mm.end():e2], re.S)
         return ' | '.join(msgs)
 
     def replay_exe(self):
@@ -188,7 +202,7 @@ class Context:
             return None
 
     def k_counterexample(self, h, ob):
-        vals, text = kani.playback(self.ov, h, timeout=900)
+        vals, text = kani.playback(self.ov, h, timeout=300)
         if vals is None:
             ob.detail += ' (no concrete playback values)'
             return
